@@ -40,6 +40,10 @@ def _http_script(p):
     elif p["read"] == "one":
         sc.append(["recv"])  # takes one message and answers in the same step
     r = p["respond"]
+    if p.get("push_now"):
+        # a push whose PUSH_PROMISE may still be waiting to be written (client not reading) when the connection goes
+        sc.append(["wait", "pushgo"])
+        sc.append(["send", {"type": "http.response.push", "path": "/pushed-now-%d" % tag, "headers": []}])
     if r == "now":
         sc += [["send", start], ["send", body]]
     elif r == "late":
@@ -91,6 +95,8 @@ def _ws_script(p):
 
 def gen(rng, tier):
     for i in range(N_CASES[tier]):
+        h2_blocked = False
+        by_path = {}
         shape = rng.choice(["h1.single", "h1.keepalive", "h1.pipelined", "h2.three", "ws.h11", "ws.h2"])
         by_tag, plans, client = {}, [], []
         T = 2.0
@@ -143,6 +149,15 @@ def gen(rng, tier):
                     blob += fb.headers(1 + 2 * k, [(b":method", b"GET"), (b":scheme", b"http"), (b":path", b"/t%d" % tag), (b":authority", b"h")], end_stream=True)
             client.append(["feed", bytes(blob)])
             reactor = {"kind": "h2", "credit": "auto"}
+            if rng.random() < 0.2:
+                # the client is not reading: whatever the server writes (a PUSH_PROMISE among it) waits when the connection goes
+                h2_blocked = True
+                for p_ in plans:
+                    p_["push_now"] = rng.random() < 0.7
+                    by_tag[str(p_["tag"])] = _http_script(p_)
+                    # (the pushed request's application writes nothing of its own accord: it waits to be told)
+                    by_path["/pushed-now-%d" % p_["tag"]] = [["recv_until_disconnect"], ["linger", 40.0]]
+                client = client + [["settle"], ["pause"], ["trigger", "pushgo"], ["settle"]]
         else:
             tag = i * 10
             p = _plan(rng, tag, True)
@@ -190,7 +205,7 @@ def gen(rng, tier):
                 client = [["pause"]] + client
         if shape == "h2.three" and rng.random() < 0.3:
             config["keep_alive_max_requests"] = rng.choice([1, 2])  # the server itself sends GOAWAY while applications are still running
-        pos = rng.randint(0, len(client)) if closure != "bad_chunk" else len(client)
+        pos = rng.randint(0, len(client)) if closure != "bad_chunk" and not h2_blocked else len(client)
         step = {"eof": [["eof"]], "reset": [["reset"]], "fail_write": [["fail_write_at", rng.choice([1, 2, 3])]],
                 "idle_expiry": [["advance", 2.5 * T]], "terminate": [["terminate"]],
                 "ws_client_close": [["feed", ws.close_frame(rng.choice([1000, 1001, None]))]] if shape == "ws.h11" else [["eof"]],
@@ -200,9 +215,9 @@ def gen(rng, tier):
         blocked_400 = closure == "bad_chunk" and blocked_400
         client += [["settle"], ["trigger", "late"], ["settle"]] + ([["resume"], ["settle"]] if blocked_400 else []) + [["advance", 2.5 * T], ["eof"], ["settle"]]
         case = {
-            "family": "%s.%s" % (shape, closure) + (".write-blocked" if blocked_400 else ""), "backends": ["asyncio", "trio"], "config": config,
-            "conn": {"write_buffer": 16} if blocked_400 else {},
-            "apps": {"default": [["recv_until_end"], ["respond", 200, [], b"d"], ["linger", 40.0]], "by_tag": by_tag},
+            "family": "%s.%s" % (shape, closure) + (".write-blocked" if blocked_400 or h2_blocked else ""), "backends": ["asyncio", "trio"], "config": config,
+            "conn": {"write_buffer": 16} if blocked_400 or h2_blocked else {},
+            "apps": dict({"default": [["recv_until_end"], ["respond", 200, [], b"d"], ["linger", 40.0]], "by_tag": by_tag}, **({"by_path": by_path} if by_path else {})),
             "client": client, "truth": {"shape": shape, "plans": plans, "closure": closure, "pos": pos},
             "sched": {"seed": rng.randrange(1 << 30), "net_jitter": rng.choice([None, None, [0.3, 2]])}, "horizon": 300.0,
         }
@@ -247,6 +262,14 @@ def check(case, obs, tally):
                 out.append({"clause": "disconnect-once", "sig": "C03.instance-started-after-closure/%s" % proto,
                             "detail": "http.response.push sent after the application had received its disconnect started instance %d (%s): received %r, %s" % (
                                 inst, sc.get("path"), [r.get("type") for r in obs.apps.recvs[inst]], "stuck in a send" if inst in open_sends else "exit %r" % exits.get(inst))})
+            elif (sc.get("path") or "").startswith("/pushed-now") and t["closure"] in ("reset", "fail_write") and e[0] > obs.marks.get("closure", {}).get("seq", 1 << 60) \
+                    and not any(r.get("type") in DISC for r in obs.apps.recvs[inst]):
+                # ... or by a push whose PUSH_PROMISE was still waiting to be written when the connection was lost: started afterwards,
+                # never told
+                tally.clause("disconnect-once")
+                out.append({"clause": "disconnect-once", "sig": "C03.instance-started-after-closure/%s/promise-was-waiting" % proto,
+                            "detail": "the PUSH_PROMISE was waiting for a client that does not read when the connection was lost (%s); instance %d (%s) was started "
+                                      "after that and never received a disconnect: received %r" % (t["closure"], inst, sc.get("path"), [r.get("type") for r in obs.apps.recvs[inst]])})
             continue
         recvs = obs.apps.recvs[inst]
         kinds = [r.get("type") for r in recvs]
